@@ -29,8 +29,10 @@
                                  "smooth low quality tets" loop evaluated, in order, low = quality < 0.10)
      run      validate stream: hooked real passes on the grid of the op line
                 run <passes> <bg> <h0> <g> <zi> <hmax> <az> nn xyz.. ncell cells..
-              one `rec` line per recorded hook event (star of the touched vertices incl. the non-simplex cells, and
-              frozen=1 iff the non-simplex cells and the coordinates of their vertices still equal the initial ones),
+              one `rec` line per recorded hook event (star of the touched vertices incl. the non-simplex cells;
+              frozen=1 iff the non-simplex cells and the coordinates of their vertices still equal the initial ones;
+              for the `end` of a smoothing bracket moved=1 iff the vertex moved, entered=1 iff ref_node_tet_quality was
+              called inside the bracket, i.e. the improver went past its early exits),
               one `done` line per op.
    The library prints on stdout: stdout goes to /dev/null, protocol lines to a dup of the original descriptor. */
 #include <unistd.h>
@@ -564,8 +566,13 @@ static void run_hook(const char *phase, const char *kind, void *object, int n, c
   frozen = (frozen_hash(g) == frozen0);
   if (!frozen) frozen_bad++;
   is_end = (0 == strcmp(phase, "end"));
-  if (0 == strcmp(phase, "begin") && kk >= 4 && kk <= 6 && ints[0] >= 0 && ref_node_valid(ref_node, ints[0]))
-    for (i = 0; i < 3; i++) run_xyz[i] = ref_node_xyz(ref_node, i, ints[0]);
+  if (0 == strcmp(phase, "begin") && kk >= 4 && kk <= 6) {
+    in_improve = 1;
+    spy_inside = 0;
+    if (ints[0] >= 0 && ref_node_valid(ref_node, ints[0]))
+      for (i = 0; i < 3; i++) run_xyz[i] = ref_node_xyz(ref_node, i, ints[0]);
+  }
+  if (is_end) in_improve = 0;
   if (is_end && ints[0] >= 0 && ref_node_valid(ref_node, ints[0])) {
     for (i = 0; i < 3; i++)
       if (memcmp(&run_xyz[i], &ref_node_xyz(ref_node, i, ints[0]), sizeof(REF_DBL))) moved = 1;
@@ -586,8 +593,9 @@ static void run_hook(const char *phase, const char *kind, void *object, int n, c
   rec_total++;
   star_groups(g, cells);
   collect_star(g, n, ints);
-  fprintf(out, "rec %s %s %d %d %d frozen=%d moved=%d npyr=%d npri=%d nhex=%d nqua=%d valid=", phase, kind, ints[0],
-          n > 1 ? ints[1] : -1, n > 2 ? ints[2] : -1, frozen, moved, ref_cell_n(ref_grid_pyr(g)),
+  fprintf(out, "rec %s %s %d %d %d frozen=%d moved=%d entered=%d npyr=%d npri=%d nhex=%d nqua=%d valid=", phase, kind,
+          ints[0], n > 1 ? ints[1] : -1, n > 2 ? ints[2] : -1, frozen, moved, (is_end && spy_inside > 0) ? 1 : 0,
+          ref_cell_n(ref_grid_pyr(g)),
           ref_cell_n(ref_grid_pri(g)), ref_cell_n(ref_grid_hex(g)), ref_cell_n(ref_grid_qua(g)));
   for (j = 0; j < 3; j++)
     fprintf(out, "%d", (j < n && ints[j] >= 0 && ref_node_valid(ref_node, ints[j])) ? 1 : 0);
